@@ -1002,11 +1002,17 @@ impl<'t, 'd> Gen<'t, 'd> {
         let ty = match self.t.below(4) {
             0 => self.scalar(),
             1 => {
+                // pointers of both kinds, also two levels deep
                 let p = self.ptr_target(m);
-                p.mptr()
+                match self.t.below(4) {
+                    0 => p.cptr(),
+                    1 => p.cptr().mptr(),
+                    _ => p.mptr(),
+                }
             }
             2 => {
-                let e = self.scalar();
+                // arrays of scalars or of pointers
+                let e = if self.t.chance(1, 3) { self.scalar().cptr() } else { self.scalar() };
                 e.arr(1 + self.t.below(8))
             }
             _ => {
